@@ -227,6 +227,14 @@ func runTimed(sc cScenario) cResult {
 		cl := newClient(sc.v6, conn, time.Duration(sc.T), sc.n, sc.cap)
 		want := cl.reqBytes(timedXid)
 		ctx, cancel := context.WithCancel(context.Background())
+		for _, e := range sc.evs {
+			if e.kind == "cdl" {
+				// the caller's context ends by its own deadline (ctx.Err() == context.DeadlineExceeded)
+				cancel()
+				ctx, cancel = context.WithDeadline(context.Background(), start.Add(time.Duration(e.t)))
+				break
+			}
+		}
 		defer cancel()
 		type ret struct {
 			t       int64
@@ -267,6 +275,8 @@ func runTimed(sc cScenario) cResult {
 				synctest.Wait()
 			}
 			switch e.kind {
+			case "cdl":
+				// nothing to do: the context's timer fires by itself at this instant
 			case "can":
 				cancel()
 			case "clo":
@@ -379,8 +389,115 @@ func execTimed(op string, args []string) string {
 	switch op {
 	case "client4", "client6":
 		return runTimed(cli_parseScenario(op, args)).canon()
+	case "client4h", "client6h":
+		out, _ := cliRunHistory(cliParseHistory(op, args))
+		return out
 	}
 	return "bad-op"
+}
+
+// ---- histories: successive calls with the SAME message object, mutated in between
+
+type cliHistory struct {
+	v6    bool
+	T     int64
+	n     int
+	calls int
+	mut   string
+}
+
+func (h cliHistory) line() string {
+	op := "client4h"
+	if h.v6 {
+		op = "client6h"
+	}
+	return fmt.Sprintf("%s T=%d n=%d calls=%d mut=%s", op, h.T, h.n, h.calls, h.mut)
+}
+
+func cliParseHistory(op string, args []string) cliHistory {
+	return cliHistory{v6: op == "client6h", T: parseInt64(fieldOf(args, "T")), n: int(parseInt64(fieldOf(args, "n"))),
+		calls: int(parseInt64(fieldOf(args, "calls"))), mut: fieldOf(args, "mut")}
+}
+
+// cliRunHistory returns the canonical line and, for the oracle, the first
+// transmission that differs from the request's encoding at the time of its call.
+func cliRunHistory(h cliHistory) (string, string) {
+	var parts []string
+	bad := ""
+	status := inBubble(10*time.Second, func() {
+		start := time.Now()
+		now := func() int64 { return int64(time.Since(start)) }
+		conn := cli_newScriptConn(now)
+		cl := newClient(h.v6, conn, time.Duration(h.T), h.n, -1)
+		m4 := req4(timedXid)
+		m6 := req6(timedXid)
+		seen := 0
+		for j := 0; j < h.calls; j++ {
+			t0 := now()
+			var want []byte
+			var err error
+			var isNil bool
+			if h.v6 {
+				want = m6.ToBytes()
+				p, e := cl.(cl6).c.SendAndRead(context.Background(), clDest6, m6, nil)
+				err, isNil = e, p == nil
+			} else {
+				want = m4.ToBytes()
+				p, e := cl.(cl4).c.SendAndRead(context.Background(), clDest4, m4, nil)
+				err, isNil = e, p == nil
+			}
+			t1 := now()
+			out := "other"
+			switch {
+			case err == nil && isNil:
+				out = "nilnil"
+			case err == nil:
+				out = "resp"
+			case err == nclient4.ErrNoResponse || err == nclient6.ErrNoResponse:
+				out = "noresp"
+			}
+			ws := conn.snapshot()
+			var tx []string
+			for k, w := range ws[seen:] {
+				s := strconv.FormatInt(w.t-t0, 10)
+				if string(w.bytes) != string(want) {
+					s += ":badbytes"
+					if bad == "" {
+						bad = fmt.Sprintf("call %d transmission %d is not the encoding the message had when the call was made", j, k)
+					}
+				}
+				if !cl.destOK(w.dest) {
+					s += ":baddest"
+				}
+				tx = append(tx, s)
+			}
+			seen = len(ws)
+			txs := "-"
+			if len(tx) > 0 {
+				txs = strings.Join(tx, ",")
+			}
+			parts = append(parts, fmt.Sprintf("c%d=%s:%d:%s", j, txs, t1-t0, out))
+			// mutate the same object before the next call
+			if strings.Contains(h.mut, "x") {
+				m4.TransactionID[3]++
+				m6.TransactionID[2]++
+			}
+			if strings.Contains(h.mut, "o") {
+				m4.UpdateOption(dhcpv4.OptGeneric(dhcpv4.GenericOptionCode(tagOpt4), []byte{byte(j), 1, 2}))
+				m6.AddOption(&dhcpv6.OptionGeneric{OptionCode: dhcpv6.OptionCode(tagOpt6), OptionData: []byte{byte(j), 1, 2}})
+			}
+		}
+		cl.close()
+		synctest.Wait()
+	})
+	if status == "hang" {
+		return "hang", "scenario did not finish"
+	}
+	s := "ok " + strings.Join(parts, " ")
+	if status != "ok" {
+		s += " bubble=" + strings.ReplaceAll(status, " ", "_")
+	}
+	return s, bad
 }
 
 // compareSet: the model prints every allowed result separated by " | ".
